@@ -24,6 +24,19 @@ def main():
                 g = gens[c['gen']]
                 out = {'v': g._jinja_env.filters['comment'](c['text']), 'start': g.comment_start_string, 'end': g.comment_end_string,
                        'prefix': g.comment_line_prefix}
+            elif c['k'] == 'javadoc':
+                from mistune import Markdown
+                from pydjinni.parser.markdown_plugins import commands_plugin
+                import pydjinni.generator.java.java.type as java_t
+                from pydjinni.generator.java.java.comment_renderer import JavaDocCommentRenderer
+                g = gens['java']
+                cfg = java_t.JavaConfig.model_validate({'out': 'o', 'package': 'com.ex'})
+                decl = SimpleNamespace(comment=c['text'], parsed_comment=Markdown(plugins=[commands_plugin]).parse(c['text']))
+                raw = JavaDocCommentRenderer(cfg.identifier).render_tokens(*Markdown(plugins=[commands_plugin]).parse(c['text'])).strip()
+                cls = java_t.JavaBaseField if c.get('field') else java_t.JavaBaseType
+                prop = cls.comment.func(SimpleNamespace(decl=decl, config=cfg))
+                out = {'raw': raw, 'prop': prop, 'v': g._jinja_env.filters['comment'](prop), 'start': g.comment_start_string,
+                       'end': g.comment_end_string, 'prefix': g.comment_line_prefix}
             elif c['k'] == 'deprecated':
                 decl = SimpleNamespace(deprecated=c['text'])
                 if c['gen'] == 'cpp':
